@@ -538,6 +538,7 @@ func runC15(r *vf.Run) {
 	c15ChildProcess(r, dir)
 	c15RejectedQueries(r, dir)
 	c15ForeignLock(r, dir)
+	c15OptionLists(r)
 	// special paths
 	specials := []struct {
 		name  string
